@@ -498,7 +498,7 @@ pub fn run(ctx: &mut Ctx) {
         }
         Case { ops }
     });
-    let cases = ctx.tier.pick(4000u32, 150_000);
+    let cases = ctx.tier.pick(12_000u32, 150_000);
     pbt_run(ctx, "attacker_sequences", cases, strat, |c, case, counting| eval(c, case, counting));
 }
 
